@@ -110,8 +110,14 @@ func genD(r *verifsim.Run) []*dConn {
 		c := &dConn{Brand: "flir", Model: []string{"lepton3", "lepton3.5", "boson"}[r.Draw(3)], Firmware: "1.2.3", Serial: r.Draw(100000)}
 		c.W, c.H = r.Range(1, 64), r.Range(1, 32)
 		c.FrameSize = r.OneOf(1, 2, 5, 64, 100, c.W*c.H*2, r.Range(1, 4096))
+		if r.Tier == "thorough" && r.Chance(1, 30) {
+			c.W, c.H, c.FrameSize = 640, 512, 640*512*2 // a real Boson frame (the 32 MiB write buffer fills after 51 frames)
+		}
 		c.Fps = r.OneOf(1, 1, 2, 9, 30, 60)
 		c.N = r.OneOf(0, 1, 2, 255, 256, 257, r.Range(0, 40), r.Range(0, 700))
+		if c.FrameSize > 100000 && c.N > 120 {
+			c.N = r.Range(40, 120)
+		}
 		if r.Chance(1, 3) {
 			c.Tail = r.Range(1, c.FrameSize)
 			if c.Tail >= c.FrameSize {
@@ -511,6 +517,9 @@ func checkD(r *verifsim.Run, conns []*dConn, res *dResult) {
 		if c.N > 256 {
 			r.Probe("more-frames-than-buffers")
 		}
+		if c.FrameSize > 100000 && c.N > 52 {
+			r.Probe("write-buffer-filled-by-real-size-frames")
+		}
 	}
 	if len(res.Files) > len(conns) {
 		r.Probe("file-rotation")
@@ -544,6 +553,17 @@ func runDRace(r *verifsim.Run) {
 	for _, c := range conns {
 		if c.N > 300 {
 			c.N = 300
+		}
+		if c.FrameSize > 4096 {
+			c.W, c.H, c.FrameSize = 64, 32, 4096 // the race pass runs ~10x slower; real-size frames belong to the deterministic pass
+			if c.Tail >= c.FrameSize {
+				c.Tail = c.FrameSize - 1
+			}
+			for k := range c.Chunks {
+				if c.Chunks[k] > 5*c.FrameSize {
+					c.Chunks[k] = 5 * c.FrameSize
+				}
+			}
 		}
 		c.PauseAfter = -1
 	}
